@@ -78,6 +78,7 @@ type PathCtx struct {
 	inSched     bool
 	randN, randRun int
 	pins        map[*Term]uint64
+	noteTexts   []string
 }
 
 type symKey struct {
@@ -379,6 +380,9 @@ func (px *PathCtx) Assert(fr *frame, cv value, id string) {
 func (px *PathCtx) violation(kind, id, msg string, m Model) {
 	tags := append([]string{}, px.tags...)
 	sort.Strings(tags)
+	if len(px.noteTexts) > 0 {
+		msg = strings.TrimSpace(msg + " notes: " + strings.Join(px.noteTexts, " | "))
+	}
 	v := &Violation{Harness: px.w.ex.harness, AssertID: id, Kind: kind, Tags: tags, Msg: msg,
 		Vector: px.vectorNow(m), Trace: px.traceNow(m)}
 	px.w.ex.addViolation(v)
